@@ -7,6 +7,7 @@ from .core import *
 # family name -> (TLC module, cfg or None)
 FAMILIES = {
     "compile": ("MC_Compile", None),
+    "scoping": ("MC_Scoping", None),
 }
 
 
@@ -140,8 +141,9 @@ def prog_samples(cases, results, n=3):
     return res
 
 
-def run_prog_property(prop, fams, tier, seed, rule, assumptions, select=None, extra_cov=None):
-    """The common shape of a check whose cases are `prog` behaviours of one or more families."""
+def run_prog_property(prop, fams, tier, seed, rule, assumptions, select=None, extra_cov=None, verdict_fams=()):
+    """The common shape of a check whose cases are `prog` behaviours of one or more families.
+    verdict_fams: families in which a wrong verdict contradicts `prop` itself (default: C01)."""
     out = Outcome(prop, tier, seed, "model_checking")
     all_cases, stats = [], []
     for fam in fams:
@@ -149,6 +151,8 @@ def run_prog_property(prop, fams, tier, seed, rule, assumptions, select=None, ex
         cases = [dict(c) for c in cases if (select is None or select(c))]
         for c in cases:
             c["family"] = fam
+            if fam in verdict_fams:
+                c["verdict_prop"] = prop
         all_cases += cases
         stats.append(st)
     if not all_cases:
